@@ -27,8 +27,11 @@ import (
 type Value struct {
 	comp Compound
 	list []*Value
-	data []byte
-	tag  byte // nbt.Tag*
+	// listType is the element type a decoded TagList announced,
+	// kept so that an empty list is written back the way it was read.
+	listType byte
+	data     []byte
+	tag      byte // nbt.Tag*
 }
 
 func NewBoolean(v bool) *Value {
